@@ -13,7 +13,7 @@ import sys
 import time
 
 VERIF = os.environ.get('VERIF_ROOT') or os.path.dirname(os.path.dirname(os.path.abspath(__file__)))
-REPO = '/repo'
+REPO = os.environ.get('VERIF_REPO') or '/repo'   # VERIF_REPO: a scratch copy, used only when testing the checks against seeded changes
 WORK = os.path.join(VERIF, '.work')
 DRIVER = os.path.join(VERIF, 'ocaml', 'driver')
 PY = '/venv/bin/python'
